@@ -133,8 +133,7 @@ func (r *syncRig) close() {
 
 // targetTree lists every file on the target filer (absolute paths), except the corners /t<k> of
 // other histories: anything written outside the target directory shows up.
-func (r *syncRig) targetTree(root string) []string {
-	var out []string
+func (r *syncRig) targetTree(root string) (files, dirs []string) {
 	var walk func(d string)
 	walk = func(d string) {
 		entries, _, err := r.dstFiler.ListDirectoryEntries(context.Background(), util.FullPath(d), "", false, 100000, "", "", "")
@@ -147,22 +146,26 @@ func (r *syncRig) targetTree(root string) []string {
 				continue
 			}
 			if e.IsDirectory() {
+				if p != root && p != root+dstDir {
+					dirs = append(dirs, p)
+				}
 				walk(p)
 			} else {
-				out = append(out, p)
+				files = append(files, p)
 			}
 		}
 	}
 	walk("/")
-	sort.Strings(out)
-	return out
+	sort.Strings(files)
+	sort.Strings(dirs)
+	return
 }
 
 // seedTarget makes the target already contain (or not contain) a file, without any event.
-func (r *syncRig) seedTarget(path string, present bool) {
+func (r *syncRig) seedTarget(path string, present, isDir bool) {
 	ctx := context.Background()
 	if present {
-		e := filer.FromPbEntry(string(util.FullPath(path)[:strings.LastIndex(path, "/")]), pbEntry(path, 0))
+		e := filer.FromPbEntry(string(util.FullPath(path)[:strings.LastIndex(path, "/")]), pbEntryOf(event{Dir: isDir}, path, 0))
 		if err := r.dstFiler.CreateEntry(ctx, e, false, false, nil); err != nil {
 			mc.Fatal("seed %s: %v", path, err)
 		}
@@ -181,29 +184,15 @@ func runSyncHistory(r *syncRig, events []event) (classes []string, v *verdict) {
 	version := 0
 	for i, e := range events {
 		version++
-		switch e.Kind {
-		case "create", "update":
-			model[e.Path] = version
-		case "delete":
-			delete(model, e.Path)
-		case "rename":
-			delete(model, e.Path)
-			model[e.To] = version
-		}
-		var want []string
-		for p := range model {
-			if inside(p) {
-				want = append(want, mp(p))
-			}
-		}
-		sort.Strings(want)
+		applyModel(model, e, version)
+		want, wantDirs := wantedTree(model, mp)
 		if e.Other {
 			// the change came from the target cluster: the target already has it
 			if inside(e.Path) {
-				r.seedTarget(mp(e.Path), e.Kind == "create" || e.Kind == "update")
+				r.seedTarget(mp(e.Path), e.Kind == "create" || e.Kind == "update", e.Dir)
 			}
 			if e.Kind == "rename" && inside(e.To) {
-				r.seedTarget(mp(e.To), true)
+				r.seedTarget(mp(e.To), true, false)
 			}
 		}
 		_, _, resp := encode(e, version)
@@ -232,9 +221,14 @@ func runSyncHistory(r *syncRig, events []event) (classes []string, v *verdict) {
 		if (e.Other || !touches) && muts > 0 {
 			return fail("target-mutated-for-ignored-event", fmt.Sprintf("%d mutating calls reached the target filer, want none", muts))
 		}
-		got := r.targetTree(root)
+		got, gotDirs := r.targetTree(root)
 		if strings.Join(got, " ") != strings.Join(want, " ") {
-			return fail("tree-differs", fmt.Sprintf("target tree %v, want %v", got, want))
+			return fail("tree-differs", fmt.Sprintf("target files %v, want %v", got, want))
+		}
+		for _, d := range gotDirs {
+			if !wantDirs[d] {
+				return fail("sink-keeps-directory-missing-in-source", fmt.Sprintf("target has directory %s; source directories map to %v", d, keys(wantDirs)))
+			}
 		}
 		classes = append(classes, feat+"|ok")
 	}
